@@ -77,7 +77,16 @@ func (e *Env) resolveType(s string) (types.Type, string) {
 		t, _ := e.resolveType(s[i+1:])
 		return types.NewArray(t, int64(n)), ""
 	}
+	if strings.HasPrefix(s, "seq[") && strings.HasSuffix(s, "]") {
+		t, srt := e.resolveType(s[4 : len(s)-1])
+		if t != nil {
+			srt = e.fg.sorts.sortOf(t)
+		}
+		return nil, "(Array Int " + srt + ")"
+	}
 	switch s {
+	case "Bool":
+		return nil, "Bool"
 	case "Int":
 		return nil, "Int"
 	case "Ref":
@@ -208,8 +217,17 @@ func (fg *FG) globalConst(pkgName, name string, ty types.Type) string {
 			}
 			fg.g.addGlobalSeen(fg, n)
 		}
-		if fact := fg.sorts.rangeFact(ty, n); fact != "" {
+		if fact := fg.wfTerm(ty, n, 0, "H0.$alloc"); fact != "" {
+			fg.declare("H0.$alloc", "Int")
 			fg.decls = append(fg.decls, "(assert "+fact+")")
+		}
+		// facts established by the package initialiser (assumed, listed)
+		if facts := fg.g.ct.InitFacts[pkgName+"."+name]; len(facts) > 0 {
+			env := &Env{fg: fg, vars: map[string]Val{}, st: fg.entrySt, pkg: fg.g.pkgByName(pkgName)}
+			for _, f := range facts {
+				fg.items = append(fg.items, item{kind: itAssume, text: "(assert " + env.tr(f.E).T + ")"})
+				fg.g.noteAssumption("initialiser fact about " + pkgName + "." + name + ": " + f.Src)
+			}
 		}
 	}
 	return n
@@ -492,7 +510,7 @@ func (e *Env) selVal(x *SExpr, a Val, name string) Val {
 		if t != nil {
 			fg.heapTy[gf.family] = t
 		}
-		l := &Loc{Kind: LGhost, Heap: gf.family, Ref: ref.T, Ty: t, GSort: srt}
+		l := &Loc{Kind: LGhost, Heap: gf.family, Ref: fg.refOf(ref), Ty: t, GSort: srt}
 		return Val{T: fg.load(e.st, l), Ty: t, Sort: srt}
 	}
 	obj, index, _ := types.LookupFieldOrMethod(a.Ty, true, e.pkg, name)
